@@ -30,6 +30,7 @@ def priv : Pc → Option (Nat × List Led)
   | .regAlloc _ r => some (r, [.alloc]) | .regCons _ r => some (r, [.cons])
   | .pushStore _ r _ | .pushCas _ r _ => some (r, [.cons])
   | .eCons _ _ z => some (z, [.alloc]) | .eZh _ z => some (z, [.cons])
+  | .eMark _ _ z | .eBack _ _ z | .eNext _ _ _ z | .eUnl _ _ _ _ z | .eFix _ _ _ _ z => some (z, [.cons])
   | .rZn _ m | .rDesN _ m _ | .rFreN _ m _ | .rNext _ m | .rDesZ _ m _ => some (m, [.cons])
   | .rFreZ _ m _ => some (m, [.dest])
   | .dOwner m | .dRNext m | .dZn m _ | .dDesZN m _ _ | .dFreZN m _ _ | .dDesZ m _ => some (m, [.cons])
@@ -68,6 +69,7 @@ def hndClass (p : Pc) : Nat :=
   | .retp _ => 2
   | .regAlloc .. | .regCons .. | .pushStore (.reg _) .. | .pushCas (.reg _) .. => 1
   | .pExc _ => 2
+  | .rExc _ => 1
   | p => if inDtor p then 0 else 2
 
 def first? (l : List (Option String)) : Option String := l.findSome? id
@@ -187,20 +189,20 @@ def check (s : St) (tids : List Tid) : Option String :=
           chk (s.dt || (s.nodes b).back == pre.getLast? ||
                (match hpc with
                 | some (.pF3 _ n) => pre == [] && (s.nodes b).back == some n
-                | some (.eFix c _ p (some x)) => x == b && (s.nodes b).back == some c && p == pre.getLast?
+                | some (.eFix c _ p (some x) _) => x == b && (s.nodes b).back == some c && p == pre.getLast?
                 | _ => false)) s!"back of N{b} is not its predecessor"
       | none => some "splitAt"),
     chk (s.dt || s.tail == s.lst.getLast? ||
          (match hpc with
           | some (.pE2 _ n) => s.lst == [n] && s.tail == none
           | some (.pB3 _ n) => s.lst.getLast? == some n && s.tail == s.lst.dropLast.getLast?
-          | some (.eFix c _ p none) => s.tail == some c && p == s.lst.getLast?
+          | some (.eFix c _ p none _) => s.tail == some c && p == s.lst.getLast?
           | _ => false)) "tail is not the last linked node",
     -- deleted flag <-> linked
     first? (s.order.map fun c =>
       chk (s.dt || (s.lst.contains c == !(s.nodes c).deleted) ||
            (match hpc with
-            | some (.eBack c' _) | some (.eNext c' _ _) | some (.eUnl c' _ _ _) => c' == c && s.lst.contains c && (s.nodes c).deleted
+            | some (.eBack c' _ _) | some (.eNext c' _ _ _) | some (.eUnl c' _ _ _ _) => c' == c && s.lst.contains c && (s.nodes c).deleted
             | _ => false)) s!"deleted flag of N{c} disagrees with linkage"),
     first? (s.lst.map fun n => chk (s.nled n == .cons || (match tids.filterMap (fun t => match s.pc t with | .dFreN m _ => some m | _ => none) with
                                                          | [m] => m == n && s.nled n == .dest | _ => false)) s!"linked node N{n} not constructed"),
@@ -223,27 +225,33 @@ def check (s : St) (tids : List Tid) : Option String :=
        | .pB2 _ n h => chk (fresh n && s.lst.getLast? == some h && (s.nodes n).next == none && (s.nodes n).back == some h) s!"pB2 t={t}"
        | .eOrig c _ => chk (s.order.contains c) s!"eOrig t={t}"
        | .eDel c _ => chk (s.order.contains c) s!"eDel t={t}"
-       | .eMark c _ => chk (s.lst.contains c) s!"eMark t={t}"
-       | .eBack c _ => chk (s.lst.contains c) s!"eBack t={t}"
-       | .eNext c _ p => match splitAt c s.lst with
+       | .eAlloc c _ => chk (s.lst.contains c && !(s.nodes c).deleted) s!"eAlloc t={t}"
+       | .eCons c _ _ => chk (s.lst.contains c && !(s.nodes c).deleted) s!"eCons t={t}"
+       | .eMark c _ _ => chk (s.lst.contains c) s!"eMark t={t}"
+       | .eBack c _ _ => chk (s.lst.contains c) s!"eBack t={t}"
+       | .eNext c _ p _ => match splitAt c s.lst with
          | some (pre, _) => chk (p == pre.getLast?) s!"eNext t={t}"
          | none => some s!"eNext: N{c} not linked"
-       | .eUnl c _ p x => match splitAt c s.lst with
+       | .eUnl c _ p x _ => match splitAt c s.lst with
          | some (pre, post) => chk (p == pre.getLast? && x == post.head?) s!"eUnl t={t}"
          | none => some s!"eUnl: N{c} not linked"
-       | .eFix c _ _ _ => chk (!s.lst.contains c && s.order.contains c && s.nled c == .cons && (s.nodes c).deleted) s!"eFix t={t}"
-       | .eAlloc c _ => chk (!s.lst.contains c && s.order.contains c && s.nled c == .cons && (s.nodes c).deleted) s!"eAlloc t={t}"
-       | .eCons c _ _ => chk (!s.lst.contains c && s.order.contains c && s.nled c == .cons && (s.nodes c).deleted) s!"eCons t={t}"
+       | .eFix c _ _ _ z => chk (!s.lst.contains c && s.order.contains c && s.nled c == .cons && (s.nodes c).deleted &&
+           (s.recs z).znode == some c) s!"eFix t={t}"
        | _ => none
      | _, _ => none),
-    -- erase in progress: no constructed record names the node yet
+    -- erase in progress: before its own record is constructed no constructed record names the node; afterwards only its own
     first? (pcs.map fun (t, p) => match p with
-      | .eMark c _ | .eBack c _ | .eNext c _ _ | .eUnl c _ _ _ | .eFix c _ _ _ | .eAlloc c _ | .eCons c _ _ =>
-          chk (recsAll.all fun x => !(s.rled x == .cons && (s.recs x).znode == some c)) s!"record for N{c} exists during its erase t={t}"
+      | .eAlloc c _ | .eCons c _ _ =>
+          chk (recsAll.all fun x => !(s.rled x == .cons && (s.recs x).znode == some c)) s!"record for N{c} exists before its erase t={t}"
+      | .eMark c _ z | .eBack c _ z | .eNext c _ _ z | .eUnl c _ _ _ z =>
+          chk ((s.recs z).znode == some c && s.nled c == .cons) s!"erase of N{c}: own record Z{z} does not name it t={t}"
       | _ => none),
     -- layer D: zombies
     first? (recsAll.map fun x => match (s.recs x).znode with
-      | some d => chk (s.rled x != .cons || ((s.nodes d).deleted && s.order.contains d && !s.lst.contains d))
+      | some d => chk (s.rled x != .cons || ((s.nodes d).deleted && s.order.contains d && !s.lst.contains d) ||
+            pcs.any (fun (_, p) => match p with
+              | .eMark c _ z | .eBack c _ z | .eNext c _ _ z | .eUnl c _ _ _ z => c == d && z == x
+              | _ => false))
           s!"zombie record Z{x}: node N{d} not erased"
       | none => none),
     first? (recsAll.map fun x => match (s.recs x).znode with
@@ -269,7 +277,6 @@ def check (s : St) (tids : List Tid) : Option String :=
       chk (s.nled n == .freed || s.lst.contains n || pcs.any (fun (_, p) => (privNode p).map (·.1) == some n) ||
            recsAll.any (fun x => s.rled x == .cons && (s.recs x).znode == some n) ||
            pcs.any (fun (_, p) => match p with
-             | .eFix c _ _ _ | .eAlloc c _ | .eCons c _ _ => c == n
              | .rFreN _ _ d | .dFreZN _ _ d => d == n
              | .dFreN m _ => m == n
              | _ => false)) s!"node N{n} is neither freed, linked, private nor owned by a record"),
@@ -278,7 +285,7 @@ def check (s : St) (tids : List Tid) : Option String :=
       | none => none),
     -- layer E: reachability.  `safe r c`: c linked, or its erase in progress, or its zombie record above r on the log
     (let pend : List Nat := pcs.filterMap fun (_, p) => match p with
-        | .eFix c _ _ _ | .eAlloc c _ | .eCons c _ _ => some c
+        | .eFix _ _ _ _ z => (s.recs z).znode
         | .eZh _ z | .pushStore (.erase _) z _ | .pushCas (.erase _) z _ => (s.recs z).znode
         | _ => none
      let safe (r c : Nat) : Bool :=
